@@ -479,8 +479,40 @@ def gen_inf(rng, variant=None):
 
 def gen_unb(rng, variant=None):
     """Problems unbounded below along a feasible ray."""
-    variant = variant if variant is not None else int(rng.integers(0, 3))
+    variant = variant if variant is not None else int(rng.integers(0, 5))
     n = int(rng.integers(1, 5))
+    if variant == 4:
+        # minimise x_0 on the slightly curved feasible set x_1 + b/2 x_0^2 = r: unbounded below, but long
+        # steps leave a linearisation error in the row, so the objective can pass the lower limit at a
+        # point that is not yet feasible to tolerance
+        n = 2
+        b = float(10.0 ** rng.uniform(-12, -6))
+        Bm = np.zeros((2, 2))
+        Bm[0, 0] = b
+        q = np.array([float(rng.uniform(0.5, 2.0)), 0.0])
+        r = float(rng.normal())
+        lb = np.full(n, -INF)
+        ub = np.full(n, INF)
+        spec = Spec(np.zeros((n, n)), q, np.array([[0.0, 1.0]]), [0.0], lb, ub, [r], [r], B=[Bm],
+                    meta={"family": "UNB", "variant": "curved-feasible-ray"})
+        spec.x0 = np.array([0.0, r])
+        return spec
+    if variant == 3:
+        # linear objective, one equality row that is NOT orthogonal to the descent direction and is
+        # violated at the start: the objective may pass the lower limit before feasibility is reached
+        n = max(n, 2)
+        q = rng.uniform(0.5, 2.0, size=n)
+        a = rng.normal(size=n)
+        a[0] = 0.0 if rng.random() < 0.3 else a[0]
+        if np.linalg.norm(a) < 0.3:
+            a[1] = 1.0
+        lb = np.full(n, -INF)
+        ub = np.full(n, INF)
+        r = float(rng.uniform(1.0, 5.0) * rng.choice([-1.0, 1.0]))
+        spec = Spec(np.zeros((n, n)), q, a[None, :], [0.0], lb, ub, [r], [r],
+                    meta={"family": "UNB", "variant": "linear+violated-equality"})
+        spec.x0 = np.zeros(n)
+        return spec
     if variant == 0:
         # linear objective, no constraints, one-sided bounds that do not block the ray
         q = rng.uniform(0.5, 2.0, size=n)
